@@ -145,6 +145,15 @@ Proof.
   - destruct I; [congruence|]. simpl. lia.
 Qed.
 
+(* without cache and without budget a call that is answered always succeeds and leaves the stop reason alone *)
+Lemma fe_nocache_ok c I y :
+  k_cache c = None -> m_max C = None -> f (k_nf c) I = Some y ->
+  snd (feval c I) = Some y /\ k_stop (fst (feval c I)) = k_stop c /\ k_mc (fst (feval c I)) = k_mc c /\
+  k_cache (fst (feval c I)) = None.
+Proof.
+  intros Hc Hm Hf. unfold func_eval, over. rewrite Hc, Hm, Hf. cbn. auto.
+Qed.
+
 (* ------------------------------------------------------------ base accounting *)
 Definition acc_base (c : cntt) : Prop :=
   k_m c = length (evald (lcalls (k_log c))) /\
